@@ -157,6 +157,7 @@ let dispatch name =
     pres pbasis (Exec.q_basis_ctor tol (Z.of_int p) k per1)
   | "obj_make_identical" -> let tol = rq () in let o1 = robj () in let o2 = robj () in let dd = rint () in
     pres (fun (a, b) -> pobj a; pobj b) (Exec.q_obj_make_identical tol o1 o2 (if dd < 0 then None else Some (nat_of_int dd)))
+  | "obj_append" -> let tol = rq () in let o1 = robj () in let o2 = robj () in pres pobj (Exec.q_obj_append tol o1 o2)
   | "obj_compatible" -> let o1 = robj () in let o2 = robj () in let (a, b) = Exec.q_obj_compatible o1 o2 in pobj a; pobj b
   | "cs_loop_tab" -> let r = rq () in let cdt = rq () in let tab = rlist (fun () -> let c = rq () in let s = rq () in (c, s)) in
     plist pqlist (Exec.q_cs_loop_tab r cdt tab O)
